@@ -73,6 +73,13 @@ type zfn struct {
 	errOf     map[ssa.Value]*ssa.Call // error-typed Extract -> the call it comes from
 	built     bool
 	callState map[ssa.Instruction]map[fieldKey]memCell // memory state just before each call
+	minDefs   []minDef                                 // min/max builtins met so far: the result is one of the arguments
+}
+
+type minDef struct {
+	name string
+	args []lin
+	call *ssa.Call
 }
 
 type zobl struct {
@@ -573,6 +580,7 @@ func (z *zfn) termD(v ssa.Value, d int) lin {
 				z.seen[name+"/def"] = true
 				var ats []lin
 				var ks []int64
+				defer func() { z.minDefs = append(z.minDefs, minDef{name: name, args: ats, call: x}) }()
 				for _, a := range x.Call.Args {
 					at := z.termD(a, d+1)
 					ats = append(ats, at)
@@ -1899,9 +1907,118 @@ func (z *zfn) prove(at ssa.Instruction, goals []lin) (bool, string) {
 		if z.provePhi(at, g, 0, nil) {
 			continue
 		}
+		var defs []minDef
+		for _, m := range z.minDefs {
+			if anchorDominates(m.call, at) {
+				defs = append(defs, m)
+			}
+		}
+		if len(defs) > 0 && entailsSplit(facts, g, defs) {
+			continue
+		}
 		return false, g.String()
 	}
 	return true, ""
+}
+
+// entailsSplit: min(a…)/max(a…) is exactly one of its arguments.  The goal is entailed when it is entailed in every
+// combination of "the result of this min/max is that argument" (at most three builtins are split: 27 cases of three
+// arguments each).
+func entailsSplit(facts []lin, g lin, defs []minDef) bool {
+	if len(defs) > 3 {
+		defs = defs[:3]
+	}
+	var rec func(i int, fs []lin) bool
+	rec = func(i int, fs []lin) bool {
+		if i == len(defs) {
+			return entails(fs, g)
+		}
+		n := linVar(defs[i].name)
+		for _, a := range defs[i].args {
+			if !rec(i+1, append(append([]lin{}, fs...), leq(n, a, 0), leq(a, n, 0))) {
+				return false
+			}
+		}
+		return true
+	}
+	return rec(0, facts)
+}
+
+// sameOnThisPath: the integer b, computed on another path of the function, would have the value of a at `at` — b is
+// a pure expression (constants, parameters, conversions proved exact, arithmetic, min/max, loads of fields the
+// function never stores to) so its defining facts hold wherever it is evaluated, and with the guards that lead to
+// `at` they give a == b.
+func (z *zfn) sameOnThisPath(at ssa.Instruction, a, b ssa.Value) bool {
+	var anchors = map[ssa.Instruction]bool{}
+	var pure func(v ssa.Value, d int) bool
+	pure = func(v ssa.Value, d int) bool {
+		if d > 8 {
+			return false
+		}
+		switch x := v.(type) {
+		case *ssa.Const, *ssa.Parameter:
+			return true
+		case *ssa.Convert:
+			anchors[x] = true
+			return pure(x.X, d+1)
+		case *ssa.BinOp:
+			anchors[x] = true
+			return pure(x.X, d+1) && pure(x.Y, d+1)
+		case *ssa.Call:
+			if n := builtinName(&x.Call); n != "min" && n != "max" {
+				return false
+			}
+			anchors[x] = true
+			for _, arg := range x.Call.Args {
+				if !pure(arg, d+1) {
+					return false
+				}
+			}
+			return true
+		case *ssa.UnOp:
+			if x.Op != token.MUL {
+				return false
+			}
+			fa, ok := x.X.(*ssa.FieldAddr)
+			if !ok {
+				return false
+			}
+			if _, ok := fa.X.(*ssa.Parameter); !ok {
+				return false
+			}
+			// no store to that field (or call that could reach one through the parameter is the memory model's
+			// business: the load's cell must be the entry cell, i.e. the same atom as a load at `at` would give)
+			for _, blk := range z.fn.Blocks {
+				for _, in := range blk.Instrs {
+					if st, ok := in.(*ssa.Store); ok {
+						if fb, ok := st.Addr.(*ssa.FieldAddr); ok && fb.Field == fa.Field && fb.X == fa.X {
+							return false
+						}
+					}
+				}
+			}
+			anchors[x] = true
+			return true
+		}
+		return false
+	}
+	if !pure(b, 0) {
+		return false
+	}
+	ta, tb := z.term(a), z.term(b)
+	facts := z.factsAt(at)
+	for _, f := range z.facts {
+		if f.ablock == nil && f.anchor != nil && anchors[f.anchor] && !anchorDominates(f.anchor, at) {
+			facts = append(facts, f.l)
+		}
+	}
+	var defs []minDef
+	for _, m := range z.minDefs {
+		if anchorDominates(m.call, at) || anchors[m.call] {
+			defs = append(defs, m)
+		}
+	}
+	return entailsSplit(facts, leq(ta, tb, 0), defs) && entailsSplit(facts, leq(tb, ta, 0), defs)
 }
 
 // provePhi: goal mentions a phi atom (directly or via len#phi); split over its edges.
